@@ -9,8 +9,9 @@ value of the declarative policy (`Spec/SlicePolicy.lean`).
 One case = one input (rows / refs) with a small grid of configurations evaluated on both sides in
 the same order (lobes x window types x valid x lens options; partial x retain x slices x ref_lens).
 
-Directory level (thorough tier only): `chunk-torch-spect-data-dir --num-workers 0` on random
-well-formed directories, see `c10_dir.py`.
+Directory level (both tiers): `chunk-torch-spect-data-dir --num-workers 0` on small well-formed
+directories, every subset of the command's boolean flags x policy x validity and every file-layout
+option, see `c10_dir.py`.
 """
 import itertools
 
@@ -102,12 +103,15 @@ class C10(PropertyCheck):
     # ------------------------------------------------------------------ generators
     def cases(self, rng, tier):
         big = tier != "quick"
+        # directory level first (so that it is never cut off by the budget): the command line with
+        # --num-workers 0, every subset of its boolean flags x policy x validity, every file-layout option
+        yield from c10_dir.gen_quick(rng, rounds=6 if big else 3)
         yield from self.cases_fixed(rng, big)
         yield from self.cases_ali(rng, big)
         yield from self.cases_ref(rng, big)
         yield from self.cases_tokens(rng, big)
         yield from self.cases_malformed(rng, big)
-        if big:   # directory level: the command line with --num-workers 0 (thorough tier only)
+        if big:   # more directory-level runs, everything drawn at random
             yield from c10_dir.gen_cases(rng, 400 if tier == "search" else 160)
 
     def cases_fixed(self, rng, big):
@@ -514,8 +518,7 @@ class C10(PropertyCheck):
         if case["kind"] == "malformed":
             return ["malformed:" + case["what"]]
         if case["kind"] == "dir":
-            return ["dir", f"dir:{case['policy']}:{case['wt']}:{'valid' if case['valid'] else 'pad'}",
-                    f"dir:partial={case['partial']}:retain={case['retain']}"]
+            return c10_dir.tags(case, impl)
         t = []
         if case["kind"] == "slice":
             t.append(f"slice:{case['policy']}")
